@@ -11,6 +11,7 @@ import Genql.Model.Sanitize
 import Genql.Model.Codec
 import Genql.Model.Async
 import Genql.Model.Selector
+import Genql.Model.Vars
 open Lean Genql
 
 abbrev V := Val Float
@@ -302,6 +303,25 @@ def handle (j : Json) : Json :=
       let doc ← decVal (← j.getObjVal? "doc")
       let sel ← (← j.getObjVal? "selector").getStr?
       pure (outcome id (Sel.execReader doc sel))
+    | "vars" => do
+      let st ← decRow (← j.getObjVal? "store")
+      let opsJ ← (← j.getObjVal? "ops").getArr?
+      let ops ← opsJ.toList.mapM fun (o : Json) => do
+        let a ← o.getArr?
+        let tag ← (a[0]?.getD Json.null).getStr?
+        let k ← (a[1]?.getD Json.null).getStr?
+        match tag with
+        | "set" => do
+          let v ← decVal (a[2]?.getD Json.null)
+          pure (Vars.VOp.set k v)
+        | "get" => pure (Vars.VOp.get k)
+        | t => throw s!"vars op {t}"
+      let (st', cols) := Vars.run st ops
+      let colsJ := cols.map fun c => match c with
+        | none => Json.str "#none"
+        | some none => Json.null
+        | some (some v) => encVal v
+      pure (Json.mkObj [("id", id), ("r", "ok"), ("store", encVal (.obj st')), ("cols", Json.arr colsJ.toArray)])
     | "async" => do
       let o ← asyncOp j
       pure (o.setObjVal! "id" id)
